@@ -636,9 +636,8 @@ func (ex *Exec) loadField(st *State, base Val, f *types.Var) Val {
 		return ex.arrayFieldSlice(base.T, n, stT, f.Name(), arr, ft)
 	}
 	key := ex.fieldKey(n, stT, f.Name())
-	a := ex.heapGet(st, key, ex.fieldArraySort(fs))
+	a := ex.heapGet(st, key, ex.fieldArraySort(fs), ft)
 	v := Val{T: sSel(a, base.T), S: fs, Go: ft}
-	st.assume(ex.typeInv(st, v))
 	return v
 }
 
@@ -700,7 +699,7 @@ func (ex *Exec) storeField(st *State, base Val, f *types.Var, v Val) {
 	}
 	key := ex.fieldKey(n, stT, f.Name())
 	as := ex.fieldArraySort(fs)
-	a := ex.heapGet(st, key, as)
+	a := ex.heapGet(st, key, as, ft)
 	ex.heapSet(st, key, as, sStore(a, base.T, v.T))
 }
 
@@ -735,12 +734,9 @@ func (ex *Exec) loadStruct(st *State, ref string, ty types.Type) Val {
 }
 
 func (ex *Exec) loadElem(st *State, sl Val, idx string) Val {
-	m := ex.mem(st, sl.S.Elem)
 	et := elemGoType(sl.Go)
+	m := ex.heapGet(st, ex.memKey(sl.S.Elem), ex.w.memSort(sl.S.Elem), et)
 	v := Val{T: sSel(sSel(m, fmt.Sprintf("(s_arr %s)", sl.T)), fmt.Sprintf("(+ (s_off %s) %s)", sl.T, idx)), S: sl.S.Elem, Go: et}
-	if inv := ex.typeInv(st, v); inv != "true" {
-		st.assume(inv)
-	}
 	return v
 }
 
